@@ -491,6 +491,24 @@ fn check_ci8(c: &mut Case, w: usize, h: usize, rng: &mut Rng) {
             payload[pixels::ci8_offset(x, y, aw)] = ((y * w + x + 3 * y) % npal) as u8;
         }
     }
+    if npal < 256 {
+        // the same image with ONE visible pixel whose index is outside the palette: there is no
+        // colour for it, so the reader has to fail (and must not invent a pixel)
+        c.sit("ci8_visible_index_outside_the_palette");
+        let mut bad = payload.clone();
+        let (bx, by) = (rng.below(w), rng.below(h));
+        bad[pixels::ci8_offset(bx, by, aw)] = if rng.bool() { npal as u8 } else { 0xFF };
+        let t = Tex { name: String::new(), width: w, height: h, format: 0, payload: bad, palette: palette.clone() };
+        let img = texcont::tpl(&[t], rng, false).bytes;
+        let img_t = crate::monitor::tight(&img);
+        if let Some(Ok(v)) = c.lib("Tpl::extract_textures (index outside the palette)", || Tpl::extract_textures(&img_t).map_err(|e| e.to_string())) {
+            c.fail(
+                "malformed_accepted",
+                "ci8_index_outside_palette_accepted",
+                format!("CI8 {}x{} with {} colours: pixel ({},{}) has an index outside the palette, but the reader returned Ok ({} textures, pixel = {:?})", w, h, npal, bx, by, v.len(), v.get(0).and_then(|t| t.pixel_data.get((by * w + bx) * 4..(by * w + bx) * 4 + 4).map(|s| s.to_vec()))),
+            );
+        }
+    }
     let t = Tex { name: String::new(), width: w, height: h, format: 0, payload, palette: palette.clone() };
     let img = texcont::tpl(&[t], rng, false).bytes;
     let what = format!("Tpl::extract_textures (CI8 {}x{}, {} colours)", w, h, npal);
